@@ -663,12 +663,66 @@ var metaShareExempt = map[string]string{
 func scanMetaShare(c *core.Ctx) []ob {
 	var out []ob
 	n := 0
+	// unexported helpers that hand back an element borrowing the metadata of one of their parameters
+	// (`ctTmp.MetaData = ctIn.MetaData; return ctTmp`): the borrowing is judged where the helper is called
+	borrower := map[*types.Func]int{}
+	c.FuncDecls(func(pk *packages.Package, file *ast.File, fd *ast.FuncDecl) {
+		if fd.Body == nil || fd.Name.IsExported() || fd.Type.Results == nil || fd.Type.Results.NumFields() != 1 {
+			return
+		}
+		info := pk.TypesInfo
+		fn, _ := info.Defs[fd.Name].(*types.Func)
+		if fn == nil {
+			return
+		}
+		sig := fn.Type().(*types.Signature)
+		// what is returned: the named result, or the local every return statement returns
+		var ret types.Object
+		if nm := fd.Type.Results.List[0].Names; len(nm) == 1 {
+			ret = info.Defs[nm[0]]
+		}
+		ast.Inspect(fd.Body, func(x ast.Node) bool {
+			if r, ok := x.(*ast.ReturnStmt); ok && len(r.Results) == 1 {
+				if o := identObj(info, r.Results[0]); o != nil {
+					ret = o
+				}
+			}
+			return true
+		})
+		if ret == nil {
+			return
+		}
+		ast.Inspect(fd.Body, func(x ast.Node) bool {
+			as, ok := x.(*ast.AssignStmt)
+			if !ok || len(as.Lhs) != len(as.Rhs) {
+				return true
+			}
+			for i, l := range as.Lhs {
+				ls, ok := unparen(l).(*ast.SelectorExpr)
+				if !ok || ls.Sel.Name != "MetaData" || identObj(info, ls.X) != ret {
+					continue
+				}
+				rs, ok := unparen(as.Rhs[i]).(*ast.SelectorExpr)
+				if !ok || rs.Sel.Name != "MetaData" {
+					continue
+				}
+				for k := 0; k < sig.Params().Len(); k++ {
+					if identObj(info, rs.X) == types.Object(sig.Params().At(k)) {
+						borrower[funcOrigin(fn)] = k
+					}
+				}
+			}
+			return true
+		})
+	})
 	c.FuncDecls(func(pk *packages.Package, file *ast.File, fd *ast.FuncDecl) {
 		if fd.Body == nil || fileIsTestSupport(c.Program, fd.Pos()) || inExamples(pk) {
 			return
 		}
 		info := pk.TypesInfo
 		fkey := core.FuncKey(pk, fd)
+		selfFn, _ := info.Defs[fd.Name].(*types.Func)
+		_, selfBorrows := borrower[funcOrigin(selfFn)]
 		params := map[types.Object]bool{}
 		if fd.Type.Params != nil {
 			for _, f := range fd.Type.Params.List {
@@ -696,18 +750,33 @@ func scanMetaShare(c *core.Ctx) []ob {
 				return true
 			}
 			for i, l := range as.Lhs {
-				ls, ok := unparen(l).(*ast.SelectorExpr)
-				if !ok || ls.Sel.Name != "MetaData" {
-					continue
+				var lsX ast.Expr
+				a, b := "", ""
+				if call, ok := unparen(as.Rhs[i]).(*ast.CallExpr); ok {
+					// x := helper(.., arg, ..) with a borrowing helper
+					if k, isB := borrower[funcOrigin(calleeFunc(info, call))]; isB && k < len(call.Args) {
+						if _, isIdent := unparen(l).(*ast.Ident); isIdent {
+							lsX = l
+							a, b = exprString(l), exprString(call.Args[k])
+						}
+					}
 				}
-				rsel, ok := unparen(as.Rhs[i]).(*ast.SelectorExpr)
-				if !ok || rsel.Sel.Name != "MetaData" {
-					continue
+				if lsX == nil {
+					ls, ok := unparen(l).(*ast.SelectorExpr)
+					if !ok || ls.Sel.Name != "MetaData" {
+						continue
+					}
+					rsel, ok := unparen(as.Rhs[i]).(*ast.SelectorExpr)
+					if !ok || rsel.Sel.Name != "MetaData" {
+						continue
+					}
+					if _, isPtr := info.TypeOf(l).(*types.Pointer); !isPtr {
+						continue
+					}
+					lsX = ls.X
+					a, b = exprString(ls.X), exprString(rsel.X)
 				}
-				if _, isPtr := info.TypeOf(l).(*types.Pointer); !isPtr {
-					continue
-				}
-				a, b := exprString(ls.X), exprString(rsel.X)
+				ls := struct{ X ast.Expr }{lsX}
 				if a == b {
 					continue
 				}
@@ -718,7 +787,7 @@ func scanMetaShare(c *core.Ctx) []ob {
 				why := ""
 				if id := rootIdent(ls.X); id != nil {
 					o := info.Uses[id]
-					if (params[o] && isOutParamName(id.Name)) || results[o] {
+					if (params[o] && isOutParamName(id.Name)) || (results[o] && !selfBorrows) {
 						why = fmt.Sprintf("%s is an output of the operation", a)
 					}
 				}
